@@ -179,6 +179,12 @@ func (t *Tokenizer) Next() Token {
 	}
 }
 
+// drain reads all remaining tokens, so the goroutine started by Start terminates.
+func (t *Tokenizer) drain() {
+	for range t.tok {
+	}
+}
+
 func (t *Tokenizer) getLine() Line {
 	return t.line
 }
